@@ -680,6 +680,26 @@ def gen_pins():
             if isinstance(n, ast.Assign) and any("self.current_A_applied" in ast.unparse(t) for t in n.targets):
                 stores.append(f"{fn.name}: {ast.unparse(n)}")
     out["refresh"] = " | ".join(dec) + " || " + order + " || stored in: " + " ; ".join(sorted(stores))
+    # --- with screening: inside the screening loop the link variables are rebuilt from applied + induced BEFORE the psi step
+    #     of the iteration (C10, Tdgl/Props/C10Screen.lean), and that rebuild happens nowhere else ---
+    loop = [n for n in ast.walk(u) if isinstance(n, ast.For) and "screening_iteration" in ast.unparse(n.target)]
+    seq = []
+    if len(loop) == 1:
+        for n in ast.walk(loop[0]):
+            if isinstance(n, ast.Expr) and "set_link_exponents(current_A_applied + A_induced)" in ast.unparse(n):
+                seq.append((n.lineno, "rebuild(applied + induced)"))
+            if isinstance(n, ast.Assign) and "self.adaptive_euler_step(" in ast.unparse(n.value):
+                seq.append((n.lineno, "psi step"))
+            if isinstance(n, ast.Assign) and "self.get_induced_vector_potential(" in ast.unparse(n.value):
+                seq.append((n.lineno, "induced update"))
+    elsewhere = []
+    for fn in class_funcs(st, "TDGLSolver"):
+        for n in ast.walk(fn):
+            if isinstance(n, ast.Expr) and "set_link_exponents(" in ast.unparse(n) and "A_induced" in ast.unparse(n):
+                inside = len(loop) == 1 and fn.name == "update" and loop[0].lineno <= n.lineno <= loop[0].end_lineno
+                if not inside:
+                    elsewhere.append(fn.name)
+    out["screen_refresh"] = " -> ".join(t for _, t in sorted(seq)) + " || elsewhere: " + (" ; ".join(sorted(elsewhere)) or "none")
     lines = [HEADER.format(src="tdgl/solver/solver.py, tdgl/solver/runner.py (source pins)", sha=sha_of(solver) + "/" + sha_of(runner)), "namespace Tdgl.Gen\n"]
     for k, v in out.items():
         lines.append(f"def pin_{k} : String := {lean_str(v)}")
